@@ -21,6 +21,7 @@ const (
 	BiasJointDisjoint
 	BiasSnapshotRace
 	BiasRestartApplied0
+	BiasBatchedConf
 	numBias
 )
 
@@ -29,6 +30,7 @@ var BiasNames = [numBias]string{
 	"none", "figure8", "split_vote_storm", "partitioned_ex_leader",
 	"stale_candidate_longer_older_log", "removed_node_campaigns",
 	"joint_disjoint_majorities", "snapshot_vs_appends", "restart_applied0",
+	"batched_conf_changes_disjoint_majorities",
 }
 
 // SchedConfig is everything that determines one schedule. It is a pure
@@ -129,7 +131,7 @@ func DeriveConfig(seed int64, idx, events int) SchedConfig {
 		if c.Voters < 3 {
 			c.Voters = 3
 		}
-	case BiasJointDisjoint:
+	case BiasJointDisjoint, BiasBatchedConf:
 		if !lateOK {
 			c.BiasAt = early
 		}
